@@ -779,6 +779,40 @@ func oneBuilderCorpus() []Case {
 	return cs
 }
 
+// nestedCorpus: a nested package whose name repeats its parent's (pkg/pkg),
+// rules of equal base names in both, Builders made inside pkg (targets
+// spelled relative to it), and the same target list asked for again and again
+// - on one long-lived Builder and on a new Builder per build: the harness
+// hands the very same []string to each of these calls.
+func nestedCorpus() []Case {
+	st := func(size int64, tick int64) Stat {
+		return Stat{Size: size, Mtime: (baseTime + tick) * 1000000000, Mode: 0o644}
+	}
+	file := func(name, content string, tick int64) SrcFile {
+		return SrcFile{Name: name, Content: content, Stat: st(int64(len(content)), tick)}
+	}
+	set := func(name, content string, tick int64) Op {
+		s := st(int64(len(content)), tick)
+		return Op{K: "src", What: "edit", Name: name, Stat: &s, Content: content}
+	}
+	build := func(ts ...string) Op { return Op{K: "build", Targets: ts} }
+	top := Rule{K: "file_set", Dir: "pkg", Local: "top", Name: "pkg/top", Files: []string{"pkg/a.txt"}}
+	inner := Rule{K: "file_set", Dir: "pkg/pkg", Local: "top", Name: "pkg/pkg/top", Files: []string{"pkg/pkg/b.txt"}}
+	user := Rule{K: "bundle", Dir: "pkg", Local: "user", Name: "pkg/user", Deps: []string{"pkg/top", "pkg/pkg/top"}}
+	src := []SrcFile{file("pkg/a.txt", "a\n", 1), file("pkg/pkg/b.txt", "b\n", 2)}
+	var cs []Case
+	for _, style := range []string{"one", "fresh"} {
+		for _, work := range []string{"pkg", "pkg/pkg", ""} {
+			cs = append(cs, Case{Stream: "corpus-nested", Builder: style, Work: work, Pkgs: []string{"pkg", "pkg/pkg"},
+				Rules: []Rule{top, inner, user}, Src: src,
+				Ops: []Op{build("pkg/top"), build("pkg/top"), set("pkg/a.txt", "a2\n", 10), build("pkg/top"),
+					build("pkg/pkg/top"), build("pkg/top"), set("pkg/pkg/b.txt", "b2\n", 11), build("pkg/user"),
+					build("pkg/top"), build("pkg/user"), build("pkg/top", "pkg/pkg/top"), build("pkg/top", "pkg/pkg/top")}})
+		}
+	}
+	return cs
+}
+
 func genCases(seed uint64, thorough bool) []Case {
 	r := hx.NewRng(seed)
 	cs := corpus()
@@ -793,6 +827,7 @@ func genCases(seed uint64, thorough bool) []Case {
 		cs = append(cs, c)
 	}
 	cs = append(cs, oneBuilderCorpus()...)
+	cs = append(cs, nestedCorpus()...)
 	for _, c := range oneBuilderCorpus()[:3] { // ... and from inside the package directory
 		c.Work = "pkg"
 		c.Stream += "-workdir"
